@@ -153,7 +153,8 @@ class Gen:
             body.append(bi + doc.replace("\n    ", "\n" + bi))
         gen_kind = None
         if kind == "fixture" and rnd.random() < 0.5:
-            gen_kind = rnd.choice(["stmt", "stmt", "with", "if", "try", "for", "while", "async_with", "handler", "assign", "from", "finally", "nested_def"])
+            gen_kind = rnd.choice(["stmt", "stmt", "with", "if", "try", "for", "while", "async_with", "handler", "assign", "from", "finally", "nested_def",
+                                   "handler_else", "handler_finally"])
             self.tags.append("yield:" + gen_kind)
         body += self.body_stmts(bi, pnames, gen_kind)
         if gen_kind:
@@ -174,6 +175,11 @@ class Gen:
                 body += [bi + "try:", bi + "    pass", bi + "finally:", bi + "    " + y]
             elif gen_kind == "handler":
                 body += [bi + "try:", bi + "    setup()", bi + "except E:", bi + "    " + y]
+            elif gen_kind == "handler_else":
+                # the FIRST yield in source order is the handler's, a later one sits in the else block
+                body += [bi + "try:", bi + "    setup()", bi + "except E:", bi + "    " + y, bi + "else:", bi + "    yield 2"]
+            elif gen_kind == "handler_finally":
+                body += [bi + "try:", bi + "    setup()", bi + "except E:", bi + "    " + y, bi + "finally:", bi + "    yield 3"]
             elif gen_kind == "for":
                 body += [bi + ("async for i in xs:" if is_async and rnd.random() < 0.5 else "for i in xs:"), bi + "    " + y]
             elif gen_kind == "while":
